@@ -32,20 +32,32 @@ def generate(rng, tier, shard, nshards):
             T = aops.rand_fst(rng, srn, nS=rng.choice([1, 2, 3]), narcs=rng.choice([3, 5]), ins=("a", "b"), outs=("a", "b", "", ""), acyclic=exact)
         else:
             T = aops.rand_fst(rng, srn, nS=rng.choice([1, 2, 2, 3]), narcs=rng.choice([2, 4, 5]), acyclic=exact)
+        sigB = sig
+        if i % 5 == 4:
+            # the transducer writes another alphabet than it reads (symbols of the grammar that the output tape never
+            # shows, epsilon-input arcs in front of them)
+            T["arcs"] = [[p, a, {"a": "x", "b": "y"}.get(b, b), q, w] for p, a, b, q, w in T["arcs"]]
+            if not any(r[1] == "" for r in T["arcs"]):
+                T["arcs"].append([0, "", "x", 0 if not exact else min(1, T["n"] - 1), T["I"][0][1]])
+                if exact and T["n"] == 1:
+                    T["arcs"].pop()
+            sigB = ["x", "y"]
         feat = "+".join(x for x in ["epsin" if any(r[1] == "" for r in T["arcs"]) else "",
+                                    "other-output-alphabet" if sigB != sig else "",
                                     "delete" if any(r[1] != "" and r[2] == "" for r in T["arcs"]) else "",
                                     "epseps" if any(r[1] == r[2] == "" for r in T["arcs"]) else "",
                                     "multiIF" if len(T["I"]) > 1 or len(T["F"]) > 1 else ""] if x) or "plain"
         feat = feat + "/" + gfeat
         names, st = rng.choice(["str", "int", "tuple"]), rng.choice(aops.STATE_STYLES)
-        base = {"sr": srn, "G": G, "names": names, "style": st, "sigmaB": sig, "L": L}
+        base = {"sr": srn, "G": G, "names": names, "style": st, "sigmaB": sigB, "L": L}
         for how in ("cfg@fst", "fst.T@cfg"):
             Tx = T if how == "cfg@fst" else {"n": T["n"], "I": T["I"], "F": T["F"],
                                              "arcs": [[p, b, a, q, w] for p, a, b, q, w in T["arcs"]]}
             yield event("gcompose", dict(base, T=T, how=how), site=how, feat=feat, timeout=60)
-        for y in fam.strings(sig, 2):
+        for y in fam.strings(sigB, 2):
             if rng.random() < 0.5:
                 yield event("gcall", dict(base, T=T, y=list(y), how="call"), site="(cfg@fst)(ys)", feat=feat, timeout=60)
+        base = dict(base, sigmaB=sig)
         M = aops.rand_wfsa(rng, srn, nS=rng.choice([2, 3]), narcs=4, eps_acyclic=True, acyclic=exact)
         yield event("gcompose", dict(base, M=M, how="cfg@wfsa"), site="cfg@acceptor", feat="acceptor/" + gfeat, timeout=60)
         for xs in fam.strings(sig, 2):
